@@ -32,10 +32,13 @@ Definition l2_str (ivs : list (nat * bool)) : string :=
   join "," (map (fun i : nat * bool => if snd i then "+" ++ name_str (fst i) else name_str (fst i)) ivs).
 
 
-Definition wrap_den (d : expr) (s : string) : string :=
-  match d with EProd _ => "(" ++ s ++ ")" | _ => s end.
+Section Printer.
+Variable old : bool.   (* true = pinned tree before the repair: product denominators are not bracketed *)
 
-Fixpoint to_y0 (e : expr) : string :=
+Definition wrap_den (d : expr) (s : string) : string :=
+  if old then s else match d with EProd _ => "(" ++ s ++ ")" | _ => s end.
+
+Fixpoint to_y0_gen (e : expr) : string :=
   match e with
   | EProb pop ch pa =>
       let head := match pop with None => "P" | Some p => "PP[" ++ var_y0 p ++ "]" end in
@@ -43,16 +46,20 @@ Fixpoint to_y0 (e : expr) : string :=
       | Some ivs => head ++ "[" ++ l2_str ivs ++ "](" ++ dist_y0 (map strip ch) (map strip pa) ++ ")"
       | None => head ++ "(" ++ dist_y0 ch pa ++ ")"
       end
-  | EProd es => join " * " (map to_y0 es)
+  | EProd es => join " * " (map to_y0_gen es)
   | ESum e' rs =>
       let s := match e' with
-               | EFrac n d => "(" ++ to_y0 n ++ " / " ++ wrap_den d (to_y0 d) ++ ")"
-               | _ => to_y0 e'
+               | EFrac n d => "(" ++ to_y0_gen n ++ " / " ++ wrap_den d (to_y0_gen d) ++ ")"
+               | _ => to_y0_gen e'
                end in
       "Sum[" ++ join ", " (map var_y0 (by_name_v rs)) ++ "](" ++ s ++ ")"
-  | EFrac n d => "((" ++ to_y0 n ++ " / " ++ wrap_den d (to_y0 d) ++ "))"
+  | EFrac n d => "((" ++ to_y0_gen n ++ " / " ++ wrap_den d (to_y0_gen d) ++ "))"
   | EOne => "One()"
   | EZero => "Zero()"
   | EQ dom cod => "Q[" ++ join ", " (map var_y0 (by_name_v cod)) ++ "](" ++ join ", " (map var_y0 (by_name_v dom)) ++ ")"
   | EErr _ => "<error>"
   end.
+End Printer.
+
+Definition to_y0 := to_y0_gen false.
+Definition to_y0_old := to_y0_gen true.
